@@ -30,7 +30,22 @@ from fractions import Fraction
 import common
 from common import coq_string, coq_list, coq_Z, coq_bool
 
+import os
+
 PROOFS = [('GenAsset', 'PropAsset.v')]
+# How zones in which the number of sectors carrying the issuer code is not exactly one are treated (possible defect
+# D22: the asset markets never check it; see agent_reports/GenAsset.md):
+#   'hypothesis'  (now) models = /repo HEAD; such zones are outside the hypotheses of the theorems
+#                 (Deposit_no_issuer_refuted / Deposit_two_issuers_refuted): counted, not judged by the oracle.
+#   'known'       models = /repo HEAD; the oracle judges EVERY successful call and gives failures on such zones the key
+#                 suffix ':issuer-count' so that a known_findings.json entry can match them.
+#   'enforced'    once proposed fix D22 (LogicError unless exactly one issuer) is committed: correspondence against
+#                 money_generate_checked / deposit_generate_checked, every successful call judged, no suffix.
+ISSUER_POLICY = os.environ.get('GENASSET_ISSUER_POLICY', 'enforced')   # fix D22 (59ea4ed) is in /repo
+assert ISSUER_POLICY in ('hypothesis', 'known', 'enforced')
+SINGLE_ISSUER_ENFORCED = ISSUER_POLICY == 'enforced'
+JUDGE_ALL = ISSUER_POLICY != 'hypothesis'
+
 FAMILY = 'GenAsset'
 REQUIRES = ['From SFC.Base Require Import Res Str.',
             'From SFC.Gen Require Import Fx Zone.',
@@ -339,10 +354,11 @@ def emit(rec):
             coq_string(w['residual']), coq_bool(w['absolute']), exp)
     z = coq_list([coq_sector(s) for s in rec['before']])
     exp = ('(Err %s)' % rec['error']) if 'error' in rec else '(Ok %s)' % coq_list([coq_xsector(s) for s in rec['after']])
+    sfx = '_checked' if SINGLE_ISSUER_ENFORCED else ''
     if rec['kind'] == 'money':
-        return 'money_case %s %s %d%%nat %s %s' % (coq_string(rec['code']), coq_string(rec['issuer']), rec['mk'], z, exp)
+        return 'money_case%s %s %s %d%%nat %s %s' % (sfx, coq_string(rec['code']), coq_string(rec['issuer']), rec['mk'], z, exp)
     lags = [] if 'error' in rec else lags_of(rec)
-    return 'deposit_case %s %s %d%%nat %s %s %s' % (
+    return 'deposit_case%s %s %s %d%%nat %s %s %s' % (sfx, 
         coq_string(rec['code']), coq_string(rec['issuer']), rec['mk'], z, exp,
         coq_list(['(%s, %s)' % (coq_string(a), coq_string(b)) for a, b in lags]))
 
@@ -437,6 +453,7 @@ def oracle_market(rec, replay):
         issuers = [s for s in others if not s['is_market'] and s['code'] == issuer]
     stats['holders'] = len(holders)
     stats['issuers'] = len(issuers)
+    sfx = ':issuer-count' if (ISSUER_POLICY == 'known' and len(issuers) != 1) else ''
     # the zone really is the set of sectors sharing the market's currency zone object
     if sorted(before) != sorted(rec['zone_ids']):
         fails.append({'key': kind + ':zone-mismatch', 'what': 'GetSectors() of the zone differs from the sectors whose '
@@ -494,17 +511,17 @@ def oracle_market(rec, replay):
             if age == 0 and x != val.get(m_after['fullcode'] + '__' + dem, 0):
                 fails.append({'key': kind + ':not-cleared', 'what': 'issuer supply %s = "%s" is not the market demand' % (
                     i['fullcode'] + '__' + sup, rhs_text(iv)), 'replay': replay})
-        if issuers:
+        if issuers or JUDGE_ALL:
             mv = vars_of(m_after).get(sup)
             x = ev(rhs_text(mv), m_after['fullcode'], val, age) if mv is not None else None
             if age == 0 and x != val.get(m_after['fullcode'] + '__' + dem, 0):
-                fails.append({'key': kind + ':not-cleared', 'what': 'market supply "%s" is not the market demand' % (
+                fails.append({'key': kind + ':not-cleared' + sfx, 'what': 'market supply "%s" is not the market demand' % (
                     rhs_text(mv) if mv else None), 'replay': replay})
     # --- interest entries (deposit market, hypotheses of the lemma)
     if kind == 'deposit':
         parts = issuers + holders
         fresh = all(intn not in vars_of(s) or rhs_text(vars_of(s)[intn]) in ('', '0.0') for s in parts)
-        hyp = len(issuers) == 1 and fresh and all('F' in vars_of(s) for s in parts)
+        hyp = (len(issuers) == 1 or JUDGE_ALL) and fresh and all('F' in vars_of(s) for s in parts)
         stats['interest_hypotheses'] = hyp
         if hyp:
             # current-period values of every variable the call (re)defined in a participant, lag variables first
@@ -529,7 +546,7 @@ def oracle_market(rec, replay):
                         total += x
                         entries.append('%+d*%s__%s' % (d, a['fullcode'], name))
             if total != 0:
-                fails.append({'key': 'deposit:interest-does-not-cancel',
+                fails.append({'key': 'deposit:interest-does-not-cancel' + sfx,
                               'what': 'deposit market %s: entries booked on the zone\'s F equations %r sum to %s '
                                       'although last period\'s stocks were consistent' % (m_after['fullcode'], entries, total),
                               'replay': replay})
@@ -583,9 +600,19 @@ def oracle(case, recs):
 
 # ---------------------------------------------------------------------------------------------- entry points
 
-def extra(ctx, out, n_quick=120, n_thorough=1500):
-    """Append the asset-model correspondence and oracle to an Outcome (called by c04.run / c01.run)."""
+# which oracle failures belong to which property (the correspondence is common to both)
+KEYS = {
+    'C04': ('money:', 'deposit:holder-skipped', 'deposit:not-cleared', 'deposit:zone-mismatch', 'weighting:'),
+    'C01': ('deposit:interest-does-not-cancel',),
+}
+
+
+def extra(ctx, out, n_quick=120, n_thorough=1500, keys=None):
+    """Append the asset-model correspondence and oracle to an Outcome (called by c04.run / c01.run).
+    Oracle failures are kept when their key starts with one of `keys` (default: those of ctx.pid; 'all' = every key)."""
     common.use_impl()
+    if keys is None:
+        keys = KEYS.get(ctx.pid, 'all')
     n = ctx.scale(n_quick, n_thorough)
     cases, meta = [], []
     dist = {'cases': 0, 'calls': {'money': 0, 'deposit': 0, 'weighting': 0}, 'raised': {}, 'issuers': {}, 'holders': {},
@@ -597,7 +624,7 @@ def extra(ctx, out, n_quick=120, n_thorough=1500):
         case = gen_case(ctx.rng)
         recs = run_impl(case)
         fails, stats = oracle(case, recs)
-        out.failures.extend(fails)
+        out.failures.extend(f for f in fails if keys == 'all' or f['key'].startswith(tuple(keys)))
         dist['cases'] += 1
         dist['countries'][str(len(case['countries']))] = dist['countries'].get(str(len(case['countries'])), 0) + 1
         dist['other_currency_zone'] += 1 if case['other'] else 0
